@@ -120,3 +120,42 @@ Example c14_wrap :
   bytes_sent (updates {| bytes_sent := 2 ^ 64 - 1; packets_sent := 0; bytes_dropped := 0; packets_dropped := 0 |}
                       [ {| at_len := 2; at_res := Some 2 |} ])%N = 1%N.
 Proof. vm_compute. reflexivity. Qed.
+
+(* ==== added after the audit of 2026-10-02 (selftest/audit/REPORT-2026-10-02.md) ==== *)
+(* ------------------------------------------------------------------ audit A.1 / A.10 additions *)
+Require Import Cadence.Proofs.AuditS.
+
+(* the totals from ANY 64-bit starting point (c14_seq is the case stats0): every counter is its old
+   value plus the true total of the attempts, modulo 2^64 *)
+Theorem c14_totals_from : forall (l : list attempt1) st,
+  (bytes_sent st < 2 ^ 64 /\ packets_sent st < 2 ^ 64 /\
+   bytes_dropped st < 2 ^ 64 /\ packets_dropped st < 2 ^ 64)%N ->
+  let st' := updates st l in
+  (bytes_sent st' = (bytes_sent st + sent_bytes l) mod 2 ^ 64 /\
+   packets_sent st' = (packets_sent st + sent_count l) mod 2 ^ 64 /\
+   bytes_dropped st' = (bytes_dropped st + dropped_bytes l) mod 2 ^ 64 /\
+   packets_dropped st' = (packets_dropped st + dropped_count l) mod 2 ^ 64)%N.
+Proof. exact updates_totals_from. Qed.
+
+(* the statistics a socket sink reports are 64-bit values: unbuffered, after any emits and OS
+   answers; buffered, after any log of underlying writes *)
+Theorem c14_unbuffered_wf : forall dest (ms : list str) os st,
+  (bytes_sent st < 2 ^ 64 /\ packets_sent st < 2 ^ 64 /\
+   bytes_dropped st < 2 ^ 64 /\ packets_dropped st < 2 ^ 64)%N ->
+  let st' := snd (sock_emits dest st ms os) in
+  (bytes_sent st' < 2 ^ 64 /\ packets_sent st' < 2 ^ 64 /\
+   bytes_dropped st' < 2 ^ 64 /\ packets_dropped st' < 2 ^ 64)%N.
+Proof. exact sock_emits_wf. Qed.
+Theorem c14_buffered_wf : forall lg : list attempt,
+  let st := buffered_stats lg in
+  (bytes_sent st < 2 ^ 64 /\ packets_sent st < 2 ^ 64 /\
+   bytes_dropped st < 2 ^ 64 /\ packets_dropped st < 2 ^ 64)%N.
+Proof. exact buffered_stats_wf. Qed.
+
+(* "through a queuing wrapper" with content (c14_queuing is the identity by definition): a whole
+   scenario on a buffered socket sink puts the same datagrams on the wire and ends with the same
+   statistics with and without the queuing wrapper - the wrapper changes answers only *)
+Theorem c14_queuing_scenario : forall co q1 q2 ops,
+  snd (fst (sc_buffered co q1 ops)) = snd (fst (sc_buffered co q2 ops)) /\
+  snd (sc_buffered co q1 ops) = snd (sc_buffered co q2 ops).
+Proof. exact sc_buffered_queued_same_wire. Qed.
